@@ -10,26 +10,26 @@ namespace SF.Drv
 open SF SExp SF.Pool
 
 /-- outcome atom → what the task does -/
-def outcome (s : String) : Except String String :=
+private def outcome (s : String) : Except String String :=
   if s.startsWith "!" then .error (s.drop 1).toString else .ok s
 
-def poolAnswer (r : Option (Except String SExp)) : String :=
+private def poolAnswer (r : Option (Except String SExp)) : String :=
   match r with
   | none => answer (.error .shape)
   | some (.error _) => answer (.error .other)
   | some (.ok e) => answer (.ok e)
 
-def ofPairs (l : List (String × String)) : SExp := .list (l.map fun kv => .list [.atom kv.1, .atom kv.2])
+private def ofPairs (l : List (String × String)) : SExp := .list (l.map fun kv => .list [.atom kv.1, .atom kv.2])
 
-def pair? : SExp → Option (String × String)
+private def pair? : SExp → Option (String × String)
   | .list [.atom k, .atom r] => some (k, r)
   | _ => none
 
-def pairs? : SExp → Option (List (String × String))
+private def pairs? : SExp → Option (List (String × String))
   | .list xs => xs.mapM pair?
   | _ => none
 
-def optNat? : SExp → Option (Option Nat)
+private def optNat? : SExp → Option (Option Nat)
   | .atom "N" => some none
   | .atom s => s.toNat?.map some
   | _ => none
